@@ -1164,7 +1164,9 @@ func c06Systematic(tier string) []*Case {
 
 // ---------------------------------------------------------------- random
 
-func c06Random(s Src, tier string) *Case {
+func c06Random(s Src, tier string) *Case { return applySched(s, c06Random1(s, tier), true) }
+
+func c06Random1(s Src, tier string) *Case {
 	if Chance(s, "envfault", 1, 6) {
 		return c06EnvCase(s)
 	}
